@@ -310,12 +310,14 @@ type vCfg struct {
 	Burst        int        `json:"burst"`
 	RingSize     int        `json:"ringSize"`
 	Self         string     `json:"self"`
+	Prelude      string     `json:"prelude"` // "holder": stream 1 is open and holds pattern a of space X before the first step
 	// harness-side switches (not written by TLC)
 	PlainPool bool `json:"plainPool,omitempty"` // keep the pool built by Init (ungated close hook)
 }
 
 type vBehaviour struct {
 	Cfg   vCfg    `json:"cfg"`
+	Init  *vExp   `json:"init,omitempty"` // projection of the initial state (after the prelude)
 	Steps []vStep `json:"steps"`
 	Src   string  `json:"src,omitempty"`
 }
